@@ -103,7 +103,7 @@ class SSHAllowedSignersEntry(OptionsParser):
             return False
 
         valid_before = cast(Optional[int], self.options.get('valid-before'))
-        if valid_before is not None and now >= valid_before:
+        if valid_before is not None and now > valid_before:
             return False
 
         return True
